@@ -2,11 +2,12 @@
 (* Case enumeration and design-level check for C12 part (a); definitions in   *)
 (* HttpGateDefs.  The state space is the tree of partial requests: one        *)
 (* dimension is fixed per step, and at most K dimensions may deviate from the *)
-(* well-formed request of the handler (quick: every single and every pair of  *)
-(* deviations and more; thorough: K = 4).  Every complete request is a leaf;  *)
-(* TLC evaluates the code-shaped Expected against the property on it and      *)
-(* exports the case.  A disagreement is a lead (DESIGN.md section 3): it must  *)
-(* be reproduced on the real handlers before it counts.                        *)
+(* well-formed request of the handler (quick K = 3: every single fault, every *)
+(* pair, every triple; thorough K = 5), plus a coarse product with any number *)
+(* of simultaneous deviations.  Every complete request is a leaf; TLC         *)
+(* evaluates the code-shaped Expected against the property on it and exports  *)
+(* the case.  A disagreement is a lead (DESIGN.md section 3): it must be      *)
+(* reproduced on the real handlers before it counts.                          *)
 EXTENDS HttpGateDefs, Json
 CONSTANT K
 VARIABLES mode, kind, vals, used
